@@ -166,6 +166,10 @@ func c06Conversation(addr string, cid int, seed uint64, nreq int, mode int, wrap
 		return
 	}
 	defer t.Close()
+	if v2019 && cid%3 != 0 {
+		// the protocol-version-number byte of the 2019 header is the terminal's business: 0, 2, 0x7d (escaped on the wire), 0xff ...
+		t.VerByte = 1 + int([]byte{0, 2, 0x7d, 0x7e, 0xff, 3}[cid/3%6])
+	}
 	var incon atomic.Bool
 	defer func() { res.incon = res.incon || incon.Load() }()
 	var vmu sync.Mutex
